@@ -140,6 +140,7 @@ def run(ctx, st):
     try:
         out = list(cp.feed_generator(tp.feed_generator(iter(events))))
     except Exception as e:      # noqa
+        __import__('vxlib.symx.core', fromlist=['x']).proxy_rejected(e)
         ctx.check('C15/no-error', False, '%s: %s' % (type(e).__name__, e))
         ctx.reach()
         return
